@@ -246,7 +246,12 @@ def shrink_traced_types(
 
 def get_typed_dict_class_name(parameter_name: str) -> str:
     """Return the name for a TypedDict class generated for parameter `parameter_name`."""
-    return f"{pascal_case(parameter_name)}TypedDict__RENAME_ME__"
+    name = pascal_case(parameter_name)
+    if name[:1].isdigit():
+        # a dict key such as "1a" (or an empty key followed by a positional
+        # suffix) would give a class name that is not an identifier
+        name = "_" + name
+    return f"{name}TypedDict__RENAME_ME__"
 
 
 class Stub(metaclass=ABCMeta):
